@@ -232,6 +232,9 @@ def builder_edit(draw, spec):
             cands.append(("choice", n, "instance_type"))
         if e["cls"] == "GPUServer":
             cands.append(("q", n, "ram_per_gpu"))
+        if e["cls"] == "GenAIModel":
+            for a in ("model_name", "provider+model_name", "model+tokens"):
+                cands.append(("genai", n, a))
     for n in sorted(S.spec_reachable(spec)):
         e = spec["objs"][n]
         if e["cls"] in ("VideoStreamingJob", "WebApplicationJob", "GenAIJob"):
@@ -249,6 +252,8 @@ def builder_edit(draw, spec):
     e = spec["objs"][n]
     if k == "link":
         return dict(op="link", obj=n, attr="service", target=a)
+    if k == "genai":
+        return draw(G.genai_model_edit(spec, n, a))
     if k == "q":
         cur = e.get(a) or S.default_quantity(e["cls"], a)
         f = draw(st.sampled_from([0.5, 2.0, 3.0]))
@@ -264,7 +269,7 @@ def builder_edit(draw, spec):
 
 @st.composite
 def cases(draw):
-    spec = draw(G.specs(builders=True, max_len=18, long_prob=0.0))
+    spec = draw(G.specs(builders=True, max_len=18, long_prob=0.0, prefer_gpu=0.3))
     # 1-4 successive edits of builder inputs (a stale cache or a lost dependency often needs A -> B -> A -> C)
     edits, cur = [], spec
     for _ in range(draw(st.integers(1, 4))):
